@@ -175,6 +175,7 @@ def check(rep, prop, tier, seed, replay=None):
     # raw Utils.c shapes: real Avtp_GetField/SetField vs the hand Model, Model vs Spec
     rc = raw_cases(rng, thorough)
     raw_bad = raw_check(rep, prop, exe, rc)
+    cbmc_all_inputs(rep, prop, spec, thorough)
     pipeline.report_proof_failures(rep, prop, res, diff_groups)
     # ---- evidence ----------------------------------------------------------------------
     cells = set()
@@ -190,7 +191,82 @@ def check(rep, prop, tier, seed, replay=None):
         [{"obligation": "theorem check_can : %s Spec.can Gen.can = true := by decide" % chk}]
     rep.assumptions += ["C integer conversions and enum widths as reported by gcc/clang on this host",
                         "the correspondence of Model.getField/setField with Utils.c is sampled over buffer contents "
-                        "(exhaustive over descriptor shapes), not proved"]
+                        "(exhaustive over descriptor shapes); independently CBMC decides the bit-level statement on the real "
+                        "Utils.c for all contents and values per descriptor shape (bounded model checking: supports the tie, "
+                        "is not the proof)"]
+
+
+def cbmc_all_inputs(rep, prop, spec, thorough):
+    """CBMC on the REAL Utils.c: for each descriptor shape, for ALL buffer contents and ALL 64-bit
+    values, C01/C02 as stated bit by bit (harness/cbmc/utils_all_inputs.c), in both host byte
+    orders.  quick: every (quadlet, offset, bits) row of the 23 tables; thorough: plus every
+    offset 0..31 x width 1..64.  Results are cached per content of Utils.c + harness (C01 and C02
+    share one sweep).  A failing assertion's trace gives the replay input."""
+    import hashlib
+    import json
+    import os
+    import re
+    import subprocess
+    from concurrent.futures import ThreadPoolExecutor
+    R = common.REPO
+    harness = os.path.join(common.VERIF, "harness", "cbmc", "utils_all_inputs.c")
+    srcs = [os.path.join(R, "src", "avtp", "Utils.c"), os.path.join(R, "include", "avtp", "Utils.h"),
+            os.path.join(R, "include", "avtp", "Byteorder.h"), harness]
+    h = hashlib.sha256(b"".join(open(x, "rb").read() for x in srcs)).hexdigest()[:16]
+    shapes = set()
+    for f in spec["formats"]:
+        for fld in f["fields"]:
+            shapes.add((fld["first"] // 32, fld["first"] % 32, fld["width"]))
+    if thorough:
+        shapes |= {(0, o, b) for o in range(32) for b in range(1, 65)}
+    shapes = sorted(shapes)
+    cache_path = os.path.join(common.BUILD, "cbmc_utils_%s_%s.json" % (h, "t" if thorough else "q"))
+    if os.path.exists(cache_path):
+        results = json.load(open(cache_path))
+    else:
+        def one(job):
+            (q, o, b), endian = job
+            cmd = ["cbmc", "-DQ=%d" % q, "-DOFF=%d" % o, "-DBITS=%d" % b, "-I", os.path.join(R, "include"), harness,
+                   os.path.join(R, "src", "avtp", "Utils.c"), "--unwind", "400", "--no-standard-checks", "--trace"]
+            if endian == "big":
+                cmd += ["--big-endian", "-D__BYTE_ORDER__=__ORDER_BIG_ENDIAN__"]
+            r = subprocess.run(cmd, capture_output=True, text=True, timeout=600)
+            out = r.stdout
+            if "VERIFICATION SUCCESSFUL" in out:
+                return [q, o, b, endian, "ok", [], None]
+            failed = sorted(set(re.findall(r"\] line \d+ (C0[12]: [^:]+): FAILURE", out)))
+            if not failed:
+                return [q, o, b, endian, "tool-error", [], out[-600:] + r.stderr[-300:]]
+            buf = {}
+            for m in re.finditer(r"^\s*buf\[(\d+)l?\]=(\d+)", out, re.M):
+                buf.setdefault(int(m.group(1)), int(m.group(2)))
+            mv = re.search(r"^\s*v=(\d+)", out, re.M)
+            n = 4 + 4 * (q + 4)
+            pdu = bytes(buf.get(j, 0) for j in range(4, n))
+            return [q, o, b, endian, "fail", failed, {"pdu_hex": pdu.hex(), "value": int(mv.group(1)) if mv else 0}]
+        jobs = [(s_, e) for s_ in shapes for e in ("little", "big")]
+        with ThreadPoolExecutor(max_workers=14) as ex:
+            results = list(ex.map(one, jobs))
+        json.dump(results, open(cache_path, "w"))
+    n_ok = 0
+    for q, o, b, endian, verdict, failed, cex in results:
+        if verdict == "ok":
+            n_ok += 1
+            continue
+        if verdict == "tool-error":
+            raise common.ToolError("cbmc could not decide shape (%d,%d,%d) %s: %s" % (q, o, b, endian, cex))
+        mine = [f for f in failed if f.startswith(prop)]
+        if not mine:
+            continue
+        key = "Utils:all-inputs:%s:field-spans-%d-quadlets:%s" % (endian, (o + b + 31) // 32, "starts-mid-quadlet" if o else "quadlet-aligned")
+        ops = ["buf a " + cex["pdu_hex"], "uget a 0 %d %d %d L" % (q, o, b), "uset a 0 %d %d %d L %d" % (q, o, b, cex["value"]), "dump a"]
+        rep.violation(key, {"kind": "real-code-violates-the-bit-level-statement", "descriptor": {"quadlet": q, "offset": o, "bits": b},
+                            "host_byte_order": endian, "failed_assertions": mine, "ops": ops,
+                            "note": "counterexample from CBMC's trace on the real Utils.c; the ops replay it natively (little-endian host)"})
+    rep.cov["cbmc_all_inputs"] = {"shapes": len(shapes), "byte_orders": 2, "verified": n_ok, "runs": len(results),
+                                  "statement": "for all buffer contents and all 64-bit values: result/stored bits = wire bits of the field, nothing else changes",
+                                  "cmd": "cbmc -DQ=q -DOFF=o -DBITS=b -I /repo/include harness/cbmc/utils_all_inputs.c /repo/src/avtp/Utils.c --unwind 400 --no-standard-checks [--big-endian -D__BYTE_ORDER__=__ORDER_BIG_ENDIAN__]"}
+    return len(results) - n_ok
 
 
 def raw_check(rep, prop, exe, rc):
